@@ -1237,6 +1237,376 @@ Section RemapSound.
   Qed.
 End RemapSound.
 
+(* ---- relabelling does not change the decomposition into groups ---- *)
+From Coq Require Import Sorting.Sorted.
+
+Section RelabelInvariant.
+  Definition zseq (t n : nat) : list Z := map Z.of_nat (seq t n).
+
+  Lemma In_zseq t n y : In y (zseq t n) <-> (Z.of_nat t <= y < Z.of_nat (t + n))%Z.
+  Proof.
+    unfold zseq. rewrite in_map_iff. split.
+    - intros (x & <- & Hx). apply in_seq in Hx. lia.
+    - intros H. exists (Z.to_nat y). split; [lia|]. apply in_seq. lia.
+  Qed.
+
+  Lemma zseq_app t n m : zseq t (n + m) = zseq t n ++ zseq (t + n) m.
+  Proof. unfold zseq. rewrite seq_app, map_app. reflexivity. Qed.
+
+  Lemma existsb_eqb_In y l : existsb (Z.eqb y) l = true <-> In y l.
+  Proof.
+    rewrite existsb_exists. split.
+    - intros (x & Hx & E). apply Z.eqb_eq in E. subst. exact Hx.
+    - intros H. exists y. split; [exact H|apply Z.eqb_refl].
+  Qed.
+
+  Lemma dedup_from_app seen l1 l2 :
+    dedup_from seen (l1 ++ l2) = dedup_from seen l1 ++ dedup_from (rev (dedup_from seen l1) ++ seen) l2.
+  Proof.
+    revert seen; induction l1 as [|x l1 IH]; intros seen; simpl; [reflexivity|].
+    destruct (existsb (Z.eqb x) seen); [apply IH|].
+    simpl. rewrite IH. rewrite <- app_assoc. reflexivity.
+  Qed.
+
+  Lemma insert_asc_sorted x l : StronglySorted Z.le l -> StronglySorted Z.le (insert_asc x l).
+  Proof.
+    induction 1 as [|y l Hs IH Hall]; simpl; [repeat constructor|].
+    destruct (Z.leb_spec x y).
+    - constructor; [constructor; assumption|]. constructor; [assumption|].
+      eapply Forall_impl; [|exact Hall]. intros z Hz. simpl in Hz. lia.
+    - constructor; [exact IH|]. apply Forall_forall. intros z Hz.
+      apply (Permutation_in _ (insert_asc_perm x l)) in Hz. destruct Hz as [<-|Hz]; [lia|].
+      rewrite Forall_forall in Hall. apply Hall. exact Hz.
+  Qed.
+
+  Lemma sort_asc_sorted l : StronglySorted Z.le (sort_asc l).
+  Proof. induction l as [|x l IH]; simpl; [constructor|]. apply insert_asc_sorted. exact IH. Qed.
+
+  (* first occurrences of a sorted list that fills [t, t+u) on top of the seen set [0, t) *)
+  Lemma dedup_sorted s :
+    StronglySorted Z.le s ->
+    forall (t u : nat) seen,
+      (forall x, In x seen <-> (0 <= x < Z.of_nat t)%Z) ->
+      (forall x, In x s -> (0 <= x < Z.of_nat (t + u))%Z) ->
+      (forall x, (Z.of_nat t <= x < Z.of_nat (t + u))%Z -> In x s) ->
+      dedup_from seen s = zseq t u.
+  Proof.
+    induction 1 as [|y s Hs IH Hall]; intros t u seen Hseen Hrange Hcov.
+    - destruct u as [|u]; [reflexivity|]. exfalso. apply (Hcov (Z.of_nat t)). lia.
+    - simpl. destruct (existsb (Z.eqb y) seen) eqn:E.
+      + apply existsb_eqb_In in E. apply Hseen in E.
+        apply IH; [exact Hseen|intros x Hx; apply Hrange; right; exact Hx|].
+        intros x Hx. destruct (Hcov x Hx) as [<-|H']; [lia|exact H'].
+      + assert (Hy : ~ In y seen) by (intros H'; apply existsb_eqb_In in H'; congruence).
+        assert (Hy0 : (0 <= y < Z.of_nat (t + u))%Z) by (apply Hrange; left; reflexivity).
+        assert (Hyt : (Z.of_nat t <= y)%Z).
+        { destruct (Z.lt_ge_cases y (Z.of_nat t)); [|assumption]. exfalso. apply Hy. apply Hseen. lia. }
+        destruct u as [|u]; [lia|].
+        assert (Ey : y = Z.of_nat t).
+        { destruct (Hcov (Z.of_nat t)) as [H'|H']; [lia|congruence|].
+          rewrite Forall_forall in Hall. specialize (Hall _ H'). lia. }
+        subst y. replace (zseq t (S u)) with (Z.of_nat t :: zseq (S t) u) by reflexivity. f_equal.
+        apply IH.
+        * intros x. simpl. rewrite Hseen. lia.
+        * intros x Hx. specialize (Hrange x (or_intror Hx)). lia.
+        * intros x Hx. destruct (Hcov x) as [H'|H']; [lia|lia|exact H'].
+  Qed.
+
+  Lemma index_of_nonneg l w : (0 <= index_of l w)%Z.
+  Proof. induction l as [|a l IH]; cbn [index_of]; [lia|]. destruct (Z.eqb a w); lia. Qed.
+
+  Lemma index_of_lt l y : In y l -> (index_of l y < Z.of_nat (length l))%Z.
+  Proof.
+    induction l as [|a l IH]; cbn [index_of In length]; [contradiction|]. intros H.
+    destruct (Z.eqb_spec a y); [lia|]. destruct H as [H|H]; [congruence|]. specialize (IH H). lia.
+  Qed.
+
+  Lemma index_of_app_l pre post y : In y pre -> index_of (pre ++ post) y = index_of pre y.
+  Proof.
+    induction pre as [|a pre IH]; cbn [index_of In app]; [contradiction|]. intros H.
+    destruct (Z.eqb_spec a y); [reflexivity|]. destruct H as [H|H]; [congruence|]. rewrite (IH H). reflexivity.
+  Qed.
+
+  Lemma index_of_app_r pre post y :
+    ~ In y pre -> index_of (pre ++ post) y = (Z.of_nat (length pre) + index_of post y)%Z.
+  Proof.
+    induction pre as [|a pre IH]; cbn [index_of In app length]; intros H; [lia|].
+    destruct (Z.eqb_spec a y) as [->|Hne]; [exfalso; apply H; left; reflexivity|].
+    rewrite IH by (intros H'; apply H; right; exact H'). lia.
+  Qed.
+
+  Lemma map_index_of_mid l : forall pre post,
+    NoDup (pre ++ l ++ post) -> map (index_of (pre ++ l ++ post)) l = zseq (length pre) (length l).
+  Proof.
+    induction l as [|x l IH]; intros pre post Hnd; [reflexivity|].
+    cbn [map length]. replace (zseq (length pre) (S (length l))) with (Z.of_nat (length pre) :: zseq (S (length pre)) (length l)) by reflexivity.
+    f_equal.
+    - rewrite index_of_app_r.
+      + cbn [app index_of]. rewrite Z.eqb_refl. lia.
+      + apply NoDup_remove_2 in Hnd. intros H. apply Hnd. apply in_or_app. left. exact H.
+    - replace (pre ++ (x :: l) ++ post) with ((pre ++ [x]) ++ l ++ post) in * by (rewrite <- app_assoc; reflexivity).
+      rewrite IH by exact Hnd. rewrite app_length. simpl. rewrite Nat.add_1_r. reflexivity.
+  Qed.
+
+  Variable labs : list Z.
+  Hypothesis Hnd : NoDup labs.
+  Let idx := index_of labs.
+  Let rmode (m : list Z) : list Z := sort_asc (map idx m).
+
+  Lemma relabel_dedup_modes rest : forall pre post seen seenR,
+    labs = pre ++ post ->
+    (forall x, In x seen <-> In x pre) ->
+    dedup_from seen (concat rest) = post ->
+    (forall y, In y seenR <-> (0 <= y < Z.of_nat (length pre))%Z) ->
+    dedup_from seenR (concat (map rmode rest)) = zseq (length pre) (length post).
+  Proof.
+    induction rest as [|m rest IH]; intros pre post seen seenR Hl Hseen Hpost HseenR.
+    - simpl in *. subst post. reflexivity.
+    - cbn [concat map] in *. rewrite dedup_from_app in Hpost. rewrite dedup_from_app.
+      set (new := dedup_from seen m) in *.
+      set (post' := dedup_from (rev new ++ seen) (concat rest)) in *.
+      assert (Hl' : labs = (pre ++ new) ++ post') by (rewrite <- app_assoc, Hpost; exact Hl).
+      assert (Hin_m : forall y, In y m -> In y (pre ++ new)).
+      { intros y Hy. apply in_or_app. destruct (in_dec Z.eq_dec y seen) as [H|H]; [left; apply Hseen; exact H|].
+        right. apply In_dedup_from. auto. }
+      assert (First : dedup_from seenR (rmode m) = zseq (length pre) (length new)).
+      { apply dedup_sorted; [apply sort_asc_sorted|exact HseenR| |].
+        - intros x Hx. apply (Permutation_in _ (sort_asc_perm _)) in Hx.
+          apply in_map_iff in Hx as (y & <- & Hy). specialize (Hin_m y Hy).
+          unfold idx. rewrite Hl', index_of_app_l by exact Hin_m.
+          pose proof (index_of_nonneg (pre ++ new) y). pose proof (index_of_lt _ _ Hin_m) as Hlt.
+          rewrite app_length in Hlt. lia.
+        - intros x Hx. apply (Permutation_in _ (Permutation_sym (sort_asc_perm _))).
+          assert (Hx' : In x (zseq (length pre) (length new))) by (apply In_zseq; exact Hx).
+          rewrite <- (map_index_of_mid new pre post') in Hx' by (rewrite app_assoc, <- Hl'; exact Hnd).
+          rewrite app_assoc, <- Hl' in Hx'. apply in_map_iff in Hx' as (y & <- & Hy).
+          apply in_map. apply In_dedup_from in Hy. tauto. }
+      rewrite First. rewrite <- Hpost, app_length, zseq_app. f_equal.
+      rewrite <- (app_length pre new).
+      apply (IH (pre ++ new) post' (rev new ++ seen)); [exact Hl'| |reflexivity|].
+      + intros x. rewrite !in_app_iff, <- in_rev, Hseen. tauto.
+      + intros y. rewrite in_app_iff, <- in_rev, In_zseq, HseenR, app_length. lia.
+  Qed.
+
+  Lemma map_idx_labs : map idx labs = zseq 0 (length labs).
+  Proof.
+    pose proof (map_index_of_mid labs [] []) as H. simpl in H. rewrite app_nil_r in H. apply H. exact Hnd.
+  Qed.
+End RelabelInvariant.
+
+Lemma count_lab_perm x m m' : Permutation m m' -> count_lab x m = count_lab x m'.
+Proof.
+  induction 1 as [|y m m' _ IH|y z m|m m' m'' _ IH1 _ IH2]; simpl.
+  - reflexivity.
+  - rewrite IH. reflexivity.
+  - destruct (Z.eqb z x), (Z.eqb y x); reflexivity.
+  - congruence.
+Qed.
+
+Lemma count_lab_map_inj (f : Z -> Z) x m :
+  (forall y, In y m -> f y = f x -> y = x) -> count_lab (f x) (map f m) = count_lab x m.
+Proof.
+  induction m as [|y m IH]; intros H; simpl; [reflexivity|].
+  rewrite IH by (intros z Hz; apply H; right; exact Hz).
+  destruct (Z.eqb_spec (f y) (f x)) as [E|E], (Z.eqb_spec y x) as [E'|E']; try reflexivity.
+  - exfalso. apply E'. apply H; [left; reflexivity|exact E].
+  - subst. congruence.
+Qed.
+
+Lemma relabel_length_concat a : length (concat (relabel a)) = length (concat a).
+Proof.
+  unfold relabel, an_make. rewrite map_map. generalize (index_of (dedup (concat a))). intros f.
+  induction a as [|m a IH]; simpl; [reflexivity|].
+  rewrite !app_length, sort_asc_length, map_length, IH. reflexivity.
+Qed.
+
+(* the key fact: the canonical key has exactly the same groups, in the same order *)
+Lemma decompose_relabel n_modes a : decompose n_modes (relabel a) = decompose n_modes a.
+Proof.
+  unfold decompose.
+  pose proof (relabel_length_concat a) as Hlen.
+  destruct (concat a) as [|l0 L] eqn:Ea.
+  - destruct (concat (relabel a)); [reflexivity|simpl in Hlen; discriminate].
+  - destruct (concat (relabel a)) as [|r0 RL] eqn:Er; [simpl in Hlen; discriminate|].
+    rewrite <- Ea, <- Er. clear Hlen Er r0 RL.
+    set (labs := dedup (concat a)).
+    assert (Hnd : NoDup labs) by apply NoDup_dedup_from.
+    assert (Hd : dedup (concat (relabel a)) = map (index_of labs) labs).
+    { rewrite (map_idx_labs labs Hnd). unfold relabel, an_make. rewrite map_map. fold labs.
+      apply (relabel_dedup_modes labs Hnd a [] labs [] []); [reflexivity|tauto|reflexivity|].
+      intros y. simpl. split; [contradiction|lia]. }
+    rewrite Hd, map_map. apply map_ext_in. intros l Hl.
+    unfold group_state, relabel, an_make. rewrite !map_map. apply map_ext_in. intros m Hm. fold labs.
+    rewrite (count_lab_perm _ _ _ (sort_asc_perm _)).
+    apply count_lab_map_inj. intros y Hy E.
+    apply (index_of_inj labs); [|exact Hl|exact E].
+    apply In_dedup. apply in_concat. exists m. auto.
+Qed.
+
+(* ---- the whole pipeline without side condition on relabelling; strong remap soundness ---- *)
+Section MixtureSpec2.
+  Context {K : Type} {o : ops K} {SR : StarRing o}.
+  Variables nu p_i p2 : K.
+  Hypothesis Hfilter : filter_sound (o:=o) nu p_i p2.
+  Variable D : state -> list (state * K).
+  Variable n_modes : nat.
+  Hypothesis HD : forall g, D g <> [].
+
+  Lemma mixture_spec_nogroup st F :
+    group_empty st = ([], []) -> st <> [] -> Forall (fun n => (0 <= n)%Z) st ->
+    wsum o (annotated_pdist o D n_modes (build_full o nu p_i p2 st)) F
+    = wsum o (state_outcomes o nu p_i p2 st 1%Z) (fun raw => outcome_output (o:=o) D n_modes raw F).
+  Proof.
+    intros Hg Hne Hpos. apply (mixture_spec_partial nu p_i p2 Hfilter D n_modes HD); try assumption.
+    intros raw _. apply decompose_relabel.
+  Qed.
+
+  (* states merged by _remap_distribution have the same groups, hence the same output distribution *)
+  Lemma remap_sound_groups a b :
+    relabel a = relabel b ->
+    decompose n_modes a = decompose n_modes b /\
+    combine_groups o D (decompose n_modes a) = combine_groups o D (decompose n_modes b).
+  Proof.
+    intros E. assert (H : decompose n_modes a = decompose n_modes b).
+    { rewrite <- (decompose_relabel n_modes a), <- (decompose_relabel n_modes b), E. reflexivity. }
+    split; [exact H|]. rewrite H. reflexivity.
+  Qed.
+End MixtureSpec2.
+
+(* ---- output normalisation ---- *)
+Section OutputNorm.
+  Context {K : Type} {o : ops K} {SR : StarRing o}.
+  Let R := sr_ring (o:=o).
+  Add Ring Kr9 : R.
+  Local Notation "0" := (k0 o).
+  Local Notation "1" := (k1 o).
+  Local Notation "a + b" := (kadd o a b).
+  Local Notation "a * b" := (kmul o a b).
+  Local Notation "a - b" := (ksub o a b).
+
+  Variable D : state -> list (state * K).
+  Variable n_modes : nat.
+  Variable lossy : bool.
+  (* contract of the oracle: a dictionary (distinct keys), never empty, summing to one *)
+  Hypothesis HDne : forall g, D g <> [].
+  Hypothesis HDnd : forall g, NoDup (dkeys (D g)).
+  Hypothesis HDone : forall g, dtotal o (D g) = 1.
+
+  Lemma dtotal_wsum {X} (d : list (X * K)) : dtotal o d = wsum o d (fun _ => 1).
+  Proof. unfold dtotal, wsum. apply suml_ext. intros; ring. Qed.
+
+  Lemma gexp_one gs acc : gexp (o:=o) D gs acc (fun _ => 1) = 1.
+  Proof.
+    revert acc; induction gs as [|g gs IH]; intros acc; simpl; [reflexivity|].
+    rewrite (wsum_ext (D g) _ (fun _ => 1)) by (intros; apply IH). rewrite <- dtotal_wsum. apply HDone.
+  Qed.
+
+  Lemma decompose_nonempty a : decompose n_modes a <> [].
+  Proof.
+    unfold decompose. destruct (concat a) as [|l L] eqn:E; [discriminate|].
+    unfold dedup. simpl. discriminate.
+  Qed.
+
+  Lemma annotated_pdist_total inputs : dtotal o (annotated_pdist o D n_modes inputs) = dtotal o inputs.
+  Proof.
+    rewrite !dtotal_wsum, annotated_pdist_spec. apply wsum_ext. intros e _.
+    rewrite combine_groups_spec by (intros; apply HDne).
+    pose proof (decompose_nonempty (fst e)) as Hne. destruct (decompose n_modes (fst e)) as [|g gs]; [congruence|].
+    simpl. rewrite (wsum_ext (D g) _ (fun _ => 1)) by (intros; apply gexp_one).
+    rewrite <- dtotal_wsum. apply HDone.
+  Qed.
+
+  (* pdist_calc for State inputs *)
+  Hypothesis Heq1 : forall x, keqb o x 1 = true -> x = 1.
+
+  Definition bm_step (pd : list (state * K)) (e : state * K) : list (state * K) :=
+    let sub := D (fst e) in
+    match pd with
+    | [] => if keqb o (snd e) 1 then sub else map (fun sp => (fst sp, snd sp * snd e)) sub
+    | _ => fold_left (fun pd sp => dadd st_eqb o pd (fst sp) (snd sp * snd e)) sub pd
+    end.
+
+  Lemma basic_mix_fold inputs : forall pd F,
+    pd <> [] ->
+    wsum o (fold_left bm_step inputs pd) F = wsum o pd F + wsum o inputs (fun s => wsum o (D s) F) /\
+    (NoDup (dkeys pd) -> NoDup (dkeys (fold_left bm_step inputs pd))).
+  Proof.
+    induction inputs as [|e inputs IH]; intros pd F Hpd; cbn [fold_left].
+    - split; [unfold wsum; simpl; ring|auto].
+    - assert (Hne : bm_step pd e <> []).
+      { unfold bm_step. destruct pd as [|e0 pd]; [congruence|]. apply fold_dadd_nonempty. right. discriminate. }
+      destruct (IH (bm_step pd e) F Hne) as [I1 I2]. split.
+      + rewrite I1. unfold bm_step at 1. destruct pd as [|e0 pd]; [congruence|].
+        rewrite (wsum_fold_dadd st_eqb st_eqb_eq).
+        transitivity (wsum o (e0 :: pd) F + (snd e * wsum o (D (fst e)) F + wsum o inputs (fun s => wsum o (D s) F)));
+          [|reflexivity].
+        match goal with |- _ + ?a + _ = _ + (?b + _) => assert (E : a = b) end.
+        { unfold wsum. rewrite <- suml_mul_l. apply suml_ext. intros sp _. unfold state. ring. }
+        rewrite E. ring.
+      + intros H. apply I2. unfold bm_step. destruct pd as [|e0 pd]; [congruence|].
+        apply (fold_dadd_keys st_eqb o st_eqb_eq). exact H.
+  Qed.
+
+  Lemma basic_mix_spec inputs F :
+    wsum o (basic_mix o D inputs) F = wsum o inputs (fun s => wsum o (D s) F) /\
+    NoDup (dkeys (basic_mix o D inputs)).
+  Proof.
+    change (basic_mix o D inputs) with (fold_left bm_step inputs []).
+    destruct inputs as [|e inputs]; [split; [reflexivity|constructor]|].
+    cbn [fold_left].
+    assert (W0 : wsum o (bm_step [] e) F = snd e * wsum o (D (fst e)) F /\ NoDup (dkeys (bm_step [] e)) /\ bm_step [] e <> []).
+    { unfold bm_step. destruct (keqb o (snd e) 1) eqn:E.
+      - rewrite (Heq1 _ E). repeat split; [ring|apply HDnd|apply HDne].
+      - repeat split.
+        + rewrite wsum_map. unfold wsum. rewrite <- suml_mul_l. apply suml_ext. intros sp _. unfold state. ring.
+        + unfold dkeys. rewrite map_map. simpl. apply HDnd.
+        + pose proof (HDne (fst e)). destruct (D (fst e)); [congruence|discriminate]. }
+    destruct W0 as (W0 & N0 & Z0). destruct (basic_mix_fold inputs (bm_step [] e) F Z0) as [I1 I2].
+    split; [|apply I2; exact N0].
+    rewrite I1, W0. reflexivity.
+  Qed.
+
+  Lemma dtotal_dset (d : list (state * K)) k v :
+    NoDup (dkeys d) -> dtotal o (dset st_eqb d k v) + dget st_eqb o d k = dtotal o d + v.
+  Proof.
+    unfold dtotal. induction d as [|[k' v'] d IH]; simpl; intros H; [ring|].
+    inversion H as [|? ? Hn H']; subst. destruct (st_eqb k' k) eqn:E; simpl; [ring|].
+    specialize (IH H').
+    set (x := suml o (dset st_eqb d k v) snd) in *. set (y := dget st_eqb o d k) in *. set (z := suml o d snd) in *.
+    transitivity (v' + (x + y)); [ring|]. rewrite IH. ring.
+  Qed.
+
+  (* the repaired vacuum bookkeeping makes the distribution sum to one whenever it is used *)
+  Lemma basic_pdist_repaired_total inputs :
+    klt o (dtotal o (basic_mix o D inputs)) 1 && lossy = true ->
+    dtotal o (basic_pdist o D n_modes lossy inputs) = 1.
+  Proof.
+    intros H. unfold basic_pdist. rewrite H.
+    pose proof (dtotal_dset (basic_mix o D inputs) (vac n_modes)
+                  (dget st_eqb o (basic_mix o D inputs) (vac n_modes) + (1 - dtotal o (basic_mix o D inputs)))
+                  (proj2 (basic_mix_spec inputs (fun _ => 1)))) as T.
+    set (x := dtotal o (dset _ _ _ _)) in *. set (g := dget _ _ _ _) in *. set (t := dtotal o (basic_mix o D inputs)) in *.
+    transitivity (x + g - g); [ring|]. rewrite T. ring.
+  Qed.
+
+  Lemma basic_pdist_total inputs : dtotal o inputs = 1 -> dtotal o (basic_pdist o D n_modes lossy inputs) = 1.
+  Proof.
+    intros Hin. destruct (klt o (dtotal o (basic_mix o D inputs)) 1 && lossy) eqn:E.
+    - apply basic_pdist_repaired_total. exact E.
+    - unfold basic_pdist. rewrite E. rewrite dtotal_wsum, (proj1 (basic_mix_spec inputs _)).
+      rewrite (wsum_ext inputs _ (fun _ => 1)); [rewrite <- dtotal_wsum; exact Hin|].
+      intros e _. rewrite <- dtotal_wsum. apply HDone.
+  Qed.
+
+  (* normalised input statistics give a normalised output distribution, on both paths *)
+  Lemma pdist_calc_total (s : stats) :
+    stats_total o s = 1 -> dtotal o (pdist_calc o D n_modes lossy s) = 1.
+  Proof.
+    destruct s as [d|d]; simpl; intros H; [apply basic_pdist_total; exact H|].
+    rewrite annotated_pdist_total. exact H.
+  Qed.
+End OutputNorm.
+
 (* ---- the emitted photon-number statistics: g2 = 1 - purity (ring form) ---- *)
 Section G2Generic.
   Context {K : Type} {o : ops K} {SR : StarRing o}.
@@ -1456,3 +1826,33 @@ Section HOM_R.
     1 - ((1 - p_i * p_i) / 2) / ((1 - 0 * 0) / 2) = p_i * p_i.
   Proof. field. Qed.
 End HOM_R.
+
+(* ---- output normalisation over the reals, whole pipeline ---- *)
+Section OutputNormR.
+  Local Open Scope R_scope.
+  Variables nu p_i p2 : R.
+  Hypothesis Hnu : 0 <= nu <= 1.
+  Hypothesis Hpi : 0 <= p_i <= 1.
+  Hypothesis Hp2 : 0 <= p2 < 1.
+  Variable D : state -> list (state * R).
+  Variable n_modes : nat.
+  Variable lossy : bool.
+  Hypothesis HDne : forall g, D g <> [].
+  Hypothesis HDnd : forall g, NoDup (dkeys (D g)).
+  Hypothesis HDone : forall g, dtotal Rops (D g) = 1.
+
+  Lemma output_normalised_R purity indist thr st :
+    st <> [] -> Forall (fun n => (0 <= n)%Z) st ->
+    (thr = 0 \/
+     match stats_raw Rops nu p_i p2 purity indist st with
+     | SBasic d => dtotal Rops (kept (o:=Rops) thr d) <> 0
+     | SFull d => dtotal Rops (kept (o:=Rops) thr d) <> 0
+     end) ->
+    dtotal Rops (pdist_calc Rops D n_modes lossy (build_statistics Rops nu p_i p2 purity indist thr st)) = 1.
+  Proof.
+    intros Hne Hpos Hthr.
+    apply (pdist_calc_total (o:=Rops) D n_modes lossy HDne HDnd HDone).
+    - intros x Hx. simpl in Hx. apply Reqb_true in Hx. exact Hx.
+    - apply build_statistics_total_R; assumption.
+  Qed.
+End OutputNormR.
